@@ -612,7 +612,7 @@ fn one(ctx: &mut Ctx, k: u64) {
             }
             ctx.count("gpos:outcome:panic", 1);
             ctx.violation(
-                &format!("pack-panic:{}:{}:gpos:{}", p.file, p.line, case_id),
+                &format!("pack-panic:{}:{}:gpos:{}", p.file.strip_prefix(&format!("{}/", vf_core::repo_dir())).unwrap_or(&p.file), p.line, case_id),
                 json!({"what": "dump_table panicked on a real layout table", "panic": {"file": p.file, "line": p.line, "msg": p.msg, "class": p.class.as_str()},
                        "recipe": recipe, "trace": trace}),
                 None,
